@@ -1187,6 +1187,15 @@ class ProcessPoolExecutor(Executor):
         if self._executor_manager_thread is None:
             mp.util.debug("_start_executor_manager_thread called")
 
+            # Start the feeder thread of the call queue right away. It is
+            # otherwise started lazily by the executor manager thread on the
+            # first dispatch, which fails once the interpreter is finalizing
+            # (Python 3.12+ refuses to create new threads at that point) and
+            # would leave the submitted tasks unresolved at interpreter exit.
+            with self._call_queue._notempty:
+                if self._call_queue._thread is None:
+                    self._call_queue._start_thread()
+
             # Start the processes so that their sentinels are known.
             self._executor_manager_thread = _ExecutorManagerThread(self)
             self._executor_manager_thread.start()
